@@ -60,6 +60,7 @@ type nrCase struct {
 	Payload string `json:"payload"`               // encrypted | plain | garbage | truncated | short-ct | ct-bitflip | ct-truncated
 	Inner   string `json:"inner"`                 // honest | registered-self | registered-other | token-marshaled | token-real | bad-signature | expired | future | (well-signed, unusual) wrapped-info | rewrapped-info | wrapper-flow | enc-key-short | enc-key-low-order
 	History string `json:"history"`               // single | replay | replay-old
+	Rewrap  string `json:"inner_rewrapped,omitempty"` // self-valid: the inner request additionally carries registration info re-sealed, correctly, by the requesting node itself
 	Step    int    `json:"replay_step"`           // replay-old: which chain request is replayed
 	Param   int    `json:"param"`                 // byte position / length selector of the mutation
 }
@@ -792,6 +793,19 @@ func runNRCase(c *engine.Ctx, nc nrCase) {
 		return
 	}
 
+	if nc.Rewrap == "self-valid" {
+		// any enrolled node can re-seal registration info under its own shared key and name itself as the
+		// re-wrapping node; this makes the inner request take the wrapping registration flow
+		if in := world.DecodeInfo(fetchReq); in != nil {
+			ct, eerr := nodeenrollment.EncryptMessage(s.Ctx, &types.WrappingRegistrationFlowInfo{CertificatePublicKeyPkix: in.CertificatePublicKeyPkix, Nonce: in.Nonce}, w.other.node.Creds)
+			if eerr == nil {
+				fetchReq.RewrappedWrappingRegistrationFlowInfo = ct
+				fetchReq.RewrappingKeyId = w.other.node.K.KeyID
+				r.Count("inner_with_valid_self_rewrapped_info", 1)
+			}
+		}
+	}
+
 	// payload
 	valid, err := nodeenrollment.EncryptMessage(s.Ctx, fetchReq, encCreds)
 	if err != nil {
@@ -1290,6 +1304,22 @@ func runNodeRot(c *engine.Ctx) engine.Result {
 			}
 		}
 	}
+	// H. the inner request additionally takes the wrapping registration flow (validly re-sealed): replays,
+	// already registered keys and token nonces must still be refused, an honest one is honoured once
+	for _, p := range idps {
+		for _, wrap := range []bool{false, true} {
+			for _, inner := range []string{"honest", "registered-self", "registered-other", "token-marshaled", "token-real"} {
+				nc := base()
+				nc.Backend, nc.NodeID, nc.Indep, nc.Lookup, nc.EncBy, nc.Named, nc.Wrap, nc.Inner, nc.Rewrap = p.backend, p.nodeID, p.indep, p.lookup, p.encBy, p.encBy, wrap, inner, "self-valid"
+				nc.RegWrap = wrap
+				cases = append(cases, nc)
+				if inner == "honest" {
+					nc.History = "replay"
+					cases = append(cases, nc)
+				}
+			}
+		}
+	}
 	// replay of a previous-key rotation
 	{
 		nc := base()
@@ -1322,6 +1352,7 @@ func runNodeRot(c *engine.Ctx) engine.Result {
 	for _, k := range []string{"current", "previous", "other-node", "unrelated", "own-record-outside-lookup", "none"} {
 		r.Require("enc_kind_"+k, 5)
 	}
+	r.Require("inner_with_valid_self_rewrapped_info", 20)
 	for _, k := range []string{"keyid", "nodeid", "nodeid-on-plain-storage"} {
 		r.Require("path_"+k, 10)
 		r.Require("honored_path_"+k, 3)
